@@ -18,6 +18,37 @@ def same_class(ch):
     return ''
 
 
+_extra_cache = {}
+
+
+def extra_chars(m):
+    """Punctuation characters that occur in short string constants of the module's own functions (alphabets such
+    as 'ABC...Z+*' or '0123456789X*@#'): candidates for substitution besides the same-class characters.  Only
+    enlarges the explored space."""
+    if m in _extra_cache:
+        return _extra_cache[m]
+    import types
+    out = set()
+
+    def consts(code, depth=0):
+        for c in code.co_consts:
+            if isinstance(c, str) and 2 <= len(c) <= 64 and ' ' not in c and sum(ch.isalnum() for ch in c) >= 2:
+                out.update(ch for ch in c if not ch.isalnum() and ch.isascii() and ch.isprintable())
+            elif isinstance(c, types.CodeType) and depth < 3:
+                consts(c, depth + 1)
+    for k, v in vars(m).items():
+        if isinstance(v, types.FunctionType) and v.__module__ == m.__name__:
+            consts(v.__code__)
+            for d in (v.__defaults__ or ()):
+                if isinstance(d, str) and 2 <= len(d) <= 64:
+                    out.update(ch for ch in d if not ch.isalnum() and ch.isascii() and ch.isprintable() and ch != ' ')
+        elif isinstance(v, str) and 2 <= len(v) <= 64 and ' ' not in v and sum(ch.isalnum() for ch in v) >= 2:
+            out.update(ch for ch in v if not ch.isalnum() and ch.isascii() and ch.isprintable())
+    out -= set('^$[]{}()|\\?.%')        # regular expression and format syntax
+    _extra_cache[m] = ''.join(sorted(out))[:8]
+    return _extra_cache[m]
+
+
 def _accepts(m, t, kw):
     try:
         return m.validate(t, **kw) == t
@@ -39,8 +70,9 @@ def expand(m, v, check_positions=None, kw=None, stats=None, repair=True):
     out = set()
     cps = check_positions(v) if check_positions else default_check_positions(v)
     tried = 0
+    xc = extra_chars(m)
     for i, ch in enumerate(v):
-        for c in same_class(ch):
+        for c in (same_class(ch) + xc if same_class(ch) else ''):
             if c == ch:
                 continue
             t = v[:i] + c + v[i + 1:]
